@@ -42,14 +42,22 @@ theorem C15_gen_recognised :
 /-- **Arbitrarily nested wrappers.** For every type reference `ast.Type` can express and every
     assignment of kinds to named types: `parseTypeRef` of the specification's full `ofType` chain is
     the type (any depth); of the chain cut after `d` levels — the standard query asks for
-    `typeRefLevels = 8` — it is the type when it has fewer than `d` wrappers, and a nil dereference
-    (a process crash, not an error) otherwise. -/
+    `typeRefLevels = 8` — it is the type when it has fewer than `d` wrappers, and `noOfTypeErr`
+    otherwise: a start-up error on the repaired tree (`C15_malformed_typeref_is_error`), a nil
+    dereference (a process crash) before the repair. -/
 theorem C15_typeref_roundtrip (kindOf : String → String) (hk : KindsOK kindOf) (t : TypeRef) (hn : t.normal = true) :
     parseTypeRef (encTR kindOf t) = .ok t
     ∧ (∀ d, t.depth < d → parseTypeRef (truncTR d (encTR kindOf t)) = .ok t)
-    ∧ (∀ d, d ≤ t.depth → parseTypeRef (truncTR d (encTR kindOf t)) = .error .panic) :=
+    ∧ (∀ d, d ≤ t.depth → parseTypeRef (truncTR d (encTR kindOf t)) = .error noOfTypeErr) :=
   ⟨parseTypeRef_enc kindOf hk t hn, fun d h => parseTypeRef_trunc_ok kindOf hk t hn d h,
    fun d h => parseTypeRef_trunc_panic kindOf t hn d h⟩
+
+/-- **the tie: a wrapper without `ofType` is reported, not dereferenced.** The regenerated fact
+    says `parseTypeRef` guards `response == nil` and `response.OfType == nil` and returns an error;
+    without the guards (the tree before the repair) a spec-shaped answer for a type with more than
+    seven wrappers, or a malformed answer, crashed the process (former findings
+    typeref-depth-over-7, typeref-nil-oftype-panics). -/
+theorem C15_malformed_typeref_is_error : noOfTypeErr = .noOfType := by decide
 
 /-! ## the reconstruction -/
 
@@ -81,19 +89,19 @@ theorem C15_rebuild_partial (S : Schema) (h : supportedC15 S = true) :
 def C15_rebuild_full : Prop :=
   ∀ S : Schema, ∃ R, rebuild (standardAnswer S) = .ok R ∧ normSchema R.schema = normSchema S
 
-/-! ## never silently altered: a definition is rebuilt exactly or the process crashes -/
+/-! ## never silently altered: a definition is rebuilt exactly or the introspection fails -/
 
 /-- **C15, error or faithful (type references of any depth).** Whatever the nesting depth of its
     field and argument types, a field of the standard answer is rebuilt exactly (name,
-    description, arguments, type) or `parseTypeRef` dereferences nil — it is never rebuilt with
-    another type. (The crash instead of a start-up error is finding `typeref-depth-over-7`.) -/
+    description, arguments, type) or `parseTypeRef` fails with `noOfTypeErr` (a start-up error, by
+    `C15_malformed_typeref_is_error`) — it is never rebuilt with another type. -/
 theorem C15_error_or_faithful_partial (S : Schema) (f : FieldDef) (ht : refAnyDepth S f.type)
     (ha : ∀ a ∈ f.args, refAnyDepth S a.type) :
     (do pure ({ name := (fieldA S f).name, type := ← parseTypeRef (fieldA S f).type, desc := (fieldA S f).desc,
                 args := ← (fieldA S f).args.mapM parseArg } : FieldDef) : Except Err FieldDef)
       = .ok { name := f.name, args := f.args.map stripArg, type := f.type, desc := f.desc }
     ∨ (do pure ({ name := (fieldA S f).name, type := ← parseTypeRef (fieldA S f).type, desc := (fieldA S f).desc,
-                  args := ← (fieldA S f).args.mapM parseArg } : FieldDef) : Except Err FieldDef) = .error .panic := by
+                  args := ← (fieldA S f).args.mapM parseArg } : FieldDef) : Except Err FieldDef) = .error noOfTypeErr := by
   have hargs := mapM_ok_or_panic parseArg (argA S) stripArg f.args (fun a hm => by
     rcases parse_trA_any (ha a hm) with h1 | h1
     · left; simp only [parseArg, argA, inValA, h1]; rfl
@@ -172,10 +180,10 @@ theorem C15_witness_repeatable :
     ¬ ∃ R, rebuild (standardAnswer sRepeatable) = .ok R ∧ normSchema R.schema = normSchema sRepeatable :=
   not_faithful (by decide)
 
-/-- eight wrappers (finding typeref-depth-over-7): the reconstruction dereferences nil -/
+/-- eight wrappers: the answer to the standard query is cut off, the reconstruction is refused -/
 def deep8 : TypeRef := .nonNull (.list (.nonNull (.list (.nonNull (.list (.nonNull (.list (.named "Int"))))))))
 def sDeep : Schema := withA (fun fs => fs ++ [{ name := "deep", args := [], type := deep8 }])
-theorem C15_witness_depth : rebuild (standardAnswer sDeep) = .error .panic := eq_panic (by decide)
+theorem C15_witness_depth : rebuild (standardAnswer sDeep) = .error noOfTypeErr := eq_panic (by decide)
 
 /-- hence the statement for every schema is false -/
 theorem C15_full_statement_is_false : ¬ C15_rebuild_full := by
